@@ -7,6 +7,7 @@ import (
 	"fmt"
 	"math/big"
 	"math/bits"
+	"unsafe"
 
 	"github.com/oasisprotocol/curve25519-voi/curve"
 	"github.com/oasisprotocol/curve25519-voi/curve/scalar"
@@ -233,4 +234,42 @@ func run(r *mon.Run) {
 	r.Sample("entry", map[string]any{"name": "scalar.constRR", "value": fmt.Sprintf("%x", toBig(crr))})
 	r.Sample("entry", map[string]any{"name": "EIGHT_TORSION[5]/coords", "definition": "[5]T with T = XY/Z"})
 	_ = bytes.Equal
+}
+
+type tables struct {
+	odd, oddShl [64]curve.VerifAffineNiels
+	live        [32][8]curve.VerifAffineNiels
+	liveOK      bool
+	vec         interface{}
+}
+
+func tableSnapshot() interface{} {
+	t := &tables{}
+	t.odd, t.oddShl = curve.VerifOddMultiples()
+	t.live, t.liveOK = curve.VerifLiveBasepointTable()
+	t.vec = vecSnapshot()
+	return t
+}
+
+func tableDiff(snap interface{}) string {
+	t := snap.(*tables)
+	odd, oddShl := curve.VerifOddMultiples()
+	for j := range odd {
+		if !rawEq(&odd[j], &t.odd[j]) {
+			return fmt.Sprintf("AFFINE_ODD_MULTIPLES_OF_BASEPOINT[%d]", j)
+		}
+		if !rawEq(&oddShl[j], &t.oddShl[j]) {
+			return fmt.Sprintf("AFFINE_ODD_MULTIPLES_OF_B_SHL_128[%d]", j)
+		}
+	}
+	if live, ok := curve.VerifLiveBasepointTable(); ok && t.liveOK && !rawEq(&live, &t.live) {
+		return "ED25519_BASEPOINT_TABLE (live copy)"
+	}
+	return vecDiff(t.vec)
+}
+
+// rawEq compares the memory of two values (limb arrays without pointers or padding).
+func rawEq[T any](a, b *T) bool {
+	n := unsafe.Sizeof(*a)
+	return bytes.Equal(unsafe.Slice((*byte)(unsafe.Pointer(a)), n), unsafe.Slice((*byte)(unsafe.Pointer(b)), n))
 }
